@@ -59,6 +59,9 @@ def gen_box(rng, dim, x0=None, exotic=True):
         h = round(l + w, 1)
         if exotic:
             k = rng.random()
+            if k > 0.80:                            # bounds that need all 17 significant digits (1/3, 0.1+0.2, raw draws)
+                l = rng.choice([1.0 / 3.0, -2.0 / 3.0, 0.1 + 0.2, rng.uniform(-5, 1), rng.uniform(-5, 1)])
+                h = l + rng.choice([1.0 / 3.0, 2.0 / 3.0, rng.uniform(0.2, 4.0), 0.0 if k > 0.98 else 1.0 / 7.0])
             if k < 0.06: h = l                      # degenerate side
             elif k < 0.12: l = -inf                 # one-sided
             elif k < 0.18: h = inf
